@@ -16,11 +16,12 @@
 (*                    fill    : -l           lane : -m  ("ALL","EVEN",...)                             *)
 (*                    hdr     : -S  0 none, n>0 little endian n bytes, n<0 big endian                  *)
 (*                    e       : -e  (-1 = not given)     sum : -s                                      *)
-(*                    filt    : -f list of CPU ids (<<>> = no filter)   seg : -segment (default CODE)]]*)
+(*                    fops    : the -f / +f operations in effect order (FilterList.tla), <<>> = none  *)
+(*                    seg     : -segment (default CODE)]]                                              *)
 (* An observation / model output  [rc |-> exit status, bytes |-> target file, warn |-> overlap warning]*)
 (* Bounds: all addresses (offset included) < 2^24; 32-bit wrap-around is not modelled except for the   *)
 (* `start + 0 - 1` of an empty record (see Wild).                                                      *)
-EXTENDS CodeFile, SequencesExt, TLC
+EXTENDS CodeFile, FilterList, TLC
 
 Devs == {"filter_hdr",          \* FilterOK(InpHeader): -f compares the record type ($81), not the CPU id
          "lane_floor",          \* target position ((ErgStart-StartAdr)*Gran)/SizeDiv ignores the lane phase
@@ -57,7 +58,7 @@ HdrLen(o) == IF o.hdr < 0 THEN -o.hdr ELSE o.hdr
 (* Part 1: the operational machine                                         *)
 (***************************************************************************)
 FileHeaderDataRec == 129
-FilterOK(D, o, r) == o.filt = <<>> \/ (IF "filter_hdr" \in D THEN FileHeaderDataRec ELSE r.cpu) \in Range(o.filt)
+FilterOK(D, o, r) == FilterPasses(FilterState(o.fops), IF "filter_hdr" \in D THEN FileHeaderDataRec ELSE r.cpu)
 Sel(D, o, r) == FilterOK(D, o, r) /\ r.seg = o.seg /\ ("zero_len" \in D \/ Len(r.data) > 0)
 
 \* ---- MeasureFile: automatic bounds and MaxGran.  BIG stands for 0xffffffff (StartAdr before measuring).
@@ -170,7 +171,7 @@ ChunksApart(used) == \A i, j \in 1..Len(used) : i # j => ~Overlap(used[i].s, use
 (***************************************************************************)
 (* Part 2: what the property demands                                       *)
 (***************************************************************************)
-DFilterOK(o, r) == o.filt = <<>> \/ r.cpu \in Range(o.filt)              \* "-f: list of record headers to copy"
+DFilterOK(o, r) == FPasses(o.fops, r.cpu)      \* "-f: list of record headers to copy", as built by the -f / +f sequence
 \* selected, non-empty records (an empty record places no byte and uses no address)
 DSel(o, items) == {i \in DataIdx(items) : DFilterOK(o, items[i]) /\ items[i].seg = o.seg /\ Len(items[i].data) > 0}
 DGran(o, items) == IF DSel(o, items) = {} THEN 1 ELSE items[Min(DSel(o, items))].gran
